@@ -174,6 +174,11 @@ struct World {
     pushes_in: [HashMap<u32, u64>; 2],
     acked_out: [HashMap<u32, u64>; 2],
     hs_pending: [std::collections::HashSet<u32>; 2],
+    /// C15 `bind-request-withheld`: Bind requests that are certainly waiting in the endpoint's bind queue
+    /// (delivered while it was up, binds enabled, application present, receive loop certainly not parked,
+    /// queue with room) and not taken yet; `bind_unsure`: some delivery did not meet those conditions
+    bind_due: [usize; 2],
+    bind_unsure: [bool; 2],
 }
 
 const NAMES: [&str; 2] = ["A", "B"];
@@ -277,6 +282,8 @@ impl World {
             pushes_in: [HashMap::new(), HashMap::new()],
             acked_out: [HashMap::new(), HashMap::new()],
             hs_pending: [std::collections::HashSet::new(), std::collections::HashSet::new()],
+            bind_due: [0; 2],
+            bind_unsure: [false; 2],
         };
         for v in &mut w.view {
             v.mux_alive = true;
@@ -427,6 +434,11 @@ impl World {
                     }
                     if op == 5 && frame_valid(t[2]) && clean && !lagging && up_e {
                         self.bind_wire[e].insert(id, 1);
+                    }
+                    if op == 5 {
+                        let sure = frame_valid(t[2]) && self.opts[e].bind_cap > 0 && up_e && self.view[e].mux_alive && !self.in_batch
+                            && self.backlog[e][0] < self.opts[e].accept_cap && self.backlog[e][1] < self.opts[e].bind_cap;
+                        if sure { self.bind_due[e] += 1; } else { self.bind_unsure[e] = true; }
                     }
                     if op == 0 { self.backlog[e][0] += 1; }
                     if op == 5 { self.backlog[e][1] += 1; }
@@ -644,8 +656,20 @@ impl World {
                     self.bind_decision.entry(port).or_insert(t[2] == "1");
                 }
             }
+            ("bindnext", ["pending"]) => {
+                // C15: a Bind request that reached a running endpoint with binds enabled, its application
+                // present and room in the bind queue is shown to the application when it asks
+                if self.bind_due[e] > 0 && !self.bind_unsure[e] && up_e && self.view[e].mux_alive && !self.in_batch {
+                    let msg = format!("`next_bind_request` on {} is pending although {} Bind request(s) were delivered to it while it was running with binds enabled (queue capacity {}), its application present and room in the queue, and have not been shown yet: the request is withheld from the application", NAMES[e], self.bind_due[e], self.opts[e].bind_cap);
+                    if !self.fails.iter().any(|f| f.0 == "C15" && f.1 == "bind-request-withheld") {
+                        self.fails.push(("C15".into(), "bind-request-withheld".into(), msg));
+                    }
+                }
+            }
             ("bindnext", ["bindreq", k, _fid, ty, host, port]) => {
                 self.backlog[e][1] = self.backlog[e][1].saturating_sub(1);
+                self.bind_due[e] = self.bind_due[e].saturating_sub(1);
+                *self.mon.entry("bind-shown/judged").or_insert(0) += 1;
                 let k: usize = k.parse().unwrap();
                 let port: u64 = port.parse().unwrap();
                 if clean {
